@@ -151,39 +151,92 @@ def readargs(run, p, dtype_table):
                'read_csv arguments for the %s metadata: %s' % (cname, 'as declared' if not problems else '; '.join(problems)), fn=f)
 
 
+DIALECT_SAMPLES = {
+    'commentPrefix': ['#', '//'], 'delimiter': ['|', ';', '\t'], 'doubleQuote': [True, False], 'encoding': ['latin-1', 'utf-16'],
+    'header': [True, False], 'headerRowCount': [0, 1, 3], 'lineTerminators': [['\r\n'], ['\n']], 'quoteChar': ["'", None],
+    'skipBlankRows': [True, False], 'skipColumns': [0, 2], 'skipInitialSpace': [True, False], 'skipRows': [0, 4],
+    'trim': [True, False, 'true', 'false', 'start', 'end'],
+}
+# what else a key may change besides the attribute named for it (the header / headerRowCount pair of the W3C dialect)
+DIALECT_COUPLED = {'header': {'headerrowcount'}, 'headerRowCount': set()}
+
+
+def process_dialect_eval(p, dialect):
+    """CSVWMetadata.process_dialect evaluated on a dialect description -> attributes of the object afterwards"""
+    from ..pyeval import Interp, Obj, Unsupported, Raised
+    c = p.cls('CSVWMetadata')
+    f = p.lookup_method(c.qn, 'process_dialect')
+    o = Obj(c)
+    o.attrs.update(_dialect=dict(dialect), errors=[], warnings=[], _verbosity=0, name='t')
+    I = Interp(p)
+
+    def hook(m, args, kwargs, selfobj):
+        if m.name in ('warn', 'error'):
+            return True, None
+        return False, None
+    I.on_call = hook
+    try:
+        I.call(f, [], selfobj=o)
+    except (Unsupported, Raised) as e:
+        raise AnalysisError('process_dialect is not evaluable on %r: %s' % (dialect, e))
+    return {k: v for k, v in o.attrs.items() if k not in ('_dialect', 'errors', 'warnings', '_verbosity', 'name')}
+
+
 def dkeys(run, p):
-    run.rule('C16-DKEYS', 'every key read from the dialect description is a W3C dialect key, and a value is stored under the name of the key '
-                          'it was read from (an attribute or local named for one key is not filled from another); numeric options are '
-                          'defaulted with nvl, not with `or` (0 is a value)')
+    run.rule('C16-DKEYS', 'process_dialect, evaluated with one dialect key set at a time (every W3C dialect key, several values each, '
+                          'explicit zeros and false included): the value lands on the attribute named for that key, on no attribute '
+                          'named for another key, and an explicit 0 or false is kept, not replaced by a default; the number of header '
+                          'rows is 0 for header false, else the headerRowCount given, else 1')
     f = p.method('CSVWMetadata', 'process_dialect')
+    base = process_dialect_eval(p, {})
+    norm_name = lambda a: a.replace('_', '').lower()
+    named = {}
+    for a in base:
+        for k in W3C_DIALECT:
+            if norm_name(a) == k.lower():
+                named.setdefault(k, []).append(a)
     n = 0
-    lower = {k.lower(): k for k in W3C_DIALECT}
-    for s in p.own_nodes(f):
-        if not isinstance(s, ast.Assign):
-            continue
-        calls = [c for c in ast.walk(s.value) if isinstance(c, ast.Call) and isinstance(c.func, ast.Attribute) and c.func.attr == 'get_val'
-                 and len(c.args) >= 2 and isinstance(c.args[1], ast.Constant)]
-        if len(calls) != 1 or s.value is not calls[0]:
-            continue
-        key = calls[0].args[1].value
-        n += 1
-        tgt = s.targets[0]
-        name = tgt.attr if isinstance(tgt, ast.Attribute) else getattr(tgt, 'id', '?')
-        nn = name.replace('_', '').lower()
-        ok_key = key in W3C_DIALECT
-        named_for = lower.get(nn)
-        ok_name = named_for is None or named_for == key
-        run.ob('C16-DKEYS', '%s::%s::%s<-%s' % (f.rel, f.short, name, key), ok_key and ok_name,
-               '%s is read from dialect key %r%s%s' % (name, key, '' if ok_key else ' (not a W3C dialect key)',
-                                                       '' if ok_name else ' although it is named for the key %r' % named_for), fn=f, node=s)
-    # `or` defaults on numeric options
-    for x in p.own_nodes(f):
-        if isinstance(x, ast.BoolOp) and isinstance(x.op, ast.Or) and isinstance(x.values[-1], ast.Constant) and isinstance(x.values[-1].value, int):
-            clo = dep_closure(f.node, names_in(x.values[0]))
+    for k in W3C_DIALECT:
+        probs = []
+        for v in DIALECT_SAMPLES[k]:
             n += 1
-            run.ob('C16-DKEYS', '%s::%s::%s' % (f.rel, f.short, norm(x)[:40]), False,
-                   '`%s` replaces an explicit 0 by the default' % norm(x)[:50], fn=f, node=x)
-    run.floor('C16-DKEYS', n, 13)
+            got = process_dialect_eval(p, {k: v})
+            want = {'true': True, 'false': False}.get(v, v) if k == 'trim' and isinstance(v, str) else v
+            for a in named.get(k, ()):
+                if got.get(a) != want or type(got.get(a)) is not type(want):
+                    if k == 'header':
+                        continue        # header is folded into the header-row counts, checked below
+                    probs.append('%s=%r leaves %s = %r' % (k, v, a, got.get(a)))
+            for k2, attrs_ in named.items():
+                if k2 == k or k2.lower() in DIALECT_COUPLED.get(k, ()):
+                    continue
+                for a in attrs_:
+                    if got.get(a) != base.get(a):
+                        probs.append('%s=%r changes %s (named for %s) to %r' % (k, v, a, k2, got.get(a)))
+        if not named.get(k) and k != 'header':
+            probs.append('no attribute is named for the key')
+        run.ob('C16-DKEYS', '%s::%s::key:%s' % (f.rel, f.short, k), not probs,
+               'dialect key %s over %d values: %s' % (k, len(DIALECT_SAMPLES[k]), '; '.join(probs[:2]) or 'stored on %s only' % (named.get(k) or 'the header-row counts')),
+               fn=f)
+    # header rows
+    probs = []
+    for header in (None, True, False):
+        for count in (None, 0, 1, 3):
+            d = {}
+            if header is not None:
+                d['header'] = header
+            if count is not None:
+                d['headerRowCount'] = count
+            n += 1
+            got = process_dialect_eval(p, d)
+            if 'header_rows' not in got:
+                raise AnalysisError('process_dialect no longer records the number of header rows as header_rows')
+            want = 0 if header is False else (count if count is not None else 1)
+            if got.get('header_rows') != want:
+                probs.append('%r gives header_rows = %r, expected %r' % (d, got.get('header_rows'), want))
+    run.ob('C16-DKEYS', '%s::%s::header-rows' % (f.rel, f.short), not probs,
+           'header rows over 12 combinations of header and headerRowCount: %s' % ('; '.join(probs[:2]) or 'as the dialect says'), fn=f)
+    run.floor('C16-DKEYS', n, 40)
 
 
 def types(run, p):
@@ -328,26 +381,47 @@ def declared(run, p):
     run.floor('C16-DECLARED', n, 1)
 
 
+def fields_metadata_eval(p, columns, extensions=False):
+    """CSVWMetadata.get_fields_metadata evaluated on column descriptions -> ([attributes of each field], messages)"""
+    from ..pyeval import Interp, Obj, Unsupported, Raised
+    c = p.cls('CSVWMetadata')
+    f = p.lookup_method(c.qn, 'get_fields_metadata')
+    o = Obj(c)
+    o.attrs.update(fields=[], _columns=list(columns), _extensions=extensions, errors=[], warnings=[], _verbosity=0)
+    msgs = []
+    I = Interp(p)
+
+    def hook(m, args, kwargs, selfobj):
+        if m.name in ('warn', 'error') and m.cls is not None and selfobj is o:
+            msgs.append((m.name, args[0] if args else ''))
+            return True, None
+        return False, None
+    I.on_call = hook
+    try:
+        I.call(f, [], selfobj=o)
+    except (Unsupported, Raised) as e:
+        raise AnalysisError('get_fields_metadata is not evaluable: %s' % e)
+    return [dict(x.attrs) for x in o.attrs['fields']], msgs
+
+
 def titles(run, p):
-    run.rule('C16-TITLES', 'a column\'s titles are kept as the metadata lists them: every store into field.altnames is the titles value '
-                           'itself or that value wrapped in a one-element list - never a filtered copy (the reader decides from '
-                           'altnames whether to pass names= to read_csv; dropping a title equal to the name loses the column names '
-                           'of a header-less file)')
+    run.rule('C16-TITLES', 'a column\'s titles are kept as the metadata lists them: get_fields_metadata, evaluated on columns whose '
+                           'titles are a string, a list (with and without the column\'s own name in it) or a language map, leaves '
+                           'exactly those titles in altnames - a string as a one-element list - never a filtered copy (the reader '
+                           'decides from altnames whether to pass names= to read_csv; dropping a title equal to the name loses the '
+                           'column names of a header-less file)')
     f = p.method('CSVWMetadata', 'get_fields_metadata')
-    src = None
-    for s in p.own_nodes(f):
-        if isinstance(s, ast.Assign) and isinstance(s.value, ast.Call) and norm(s.value.func).endswith('get_val') and \
-                any(isinstance(a, ast.Constant) and a.value == 'titles' for a in s.value.args) and isinstance(s.targets[0], ast.Name):
-            src = s.targets[0].id
-    if src is None:
-        raise AnalysisError('get_fields_metadata no longer reads the titles key')
+    cases = [('a string', 'Amount', ['Amount']), ('the name itself', 'amount', ['amount']), ('a list', ['Amount', 'Amt'], ['Amount', 'Amt']),
+             ('a list holding the name', ['amount', 'Amt'], ['amount', 'Amt']), ('a one-name list', ['amount'], ['amount']),
+             ('a language map', {'en': ['Amount'], 'fr': ['Montant']}, {'en': ['Amount'], 'fr': ['Montant']}), ('absent', None, None)]
     n = 0
-    for s in p.own_nodes(f):
-        if isinstance(s, ast.Assign) and any(isinstance(t, ast.Attribute) and t.attr == 'altnames' for t in s.targets):
-            n += 1
-            v = s.value
-            ok = (isinstance(v, ast.Name) and v.id == src) or \
-                (isinstance(v, ast.List) and len(v.elts) == 1 and isinstance(v.elts[0], ast.Name) and v.elts[0].id == src)
-            run.ob('C16-TITLES', '%s::%s::altnames=%s' % (f.rel, f.short, norm(v)[:30]), ok,
-                   'altnames = %s %s' % (norm(v)[:50], 'keeps the titles as given' if ok else 'is not the titles as given'), fn=f, node=s)
-    run.floor('C16-TITLES', n, 3)
+    for what, given, want in cases:
+        col = {'name': 'amount', 'datatype': 'integer'}
+        if given is not None:
+            col['titles'] = given
+        fields, msgs = fields_metadata_eval(p, [{'name': 'id', 'datatype': 'string'}, col])
+        n += 1
+        got = fields[1].get('altnames') if len(fields) == 2 else '<column not loaded>'
+        run.ob('C16-TITLES', '%s::%s::titles:%s' % (f.rel, f.short, what), got == want,
+               'titles given as %s (%r) are kept as %r' % (what, given, got), fn=f)
+    run.floor('C16-TITLES', n, 7)
